@@ -62,11 +62,11 @@ def run(prop, tier, seed):
         samples = []
         os.makedirs(os.path.join(core.ROOT, "replays"), exist_ok=True)
 
-        def report(kind, bads, rule):
+        def report(kind, bads, rule, how=None):
             nonlocal nviol
             for b in bads[:8]:
                 path = os.path.join(core.ROOT, "replays", "%s-%s-%d.json" % (prop, kind, b.get("row", 0)))
-                json.dump(dict(b, property=prop, kind=kind), open(path, "w"))
+                json.dump(dict(b, property=prop, kind=kind, rule=rule, how=how), open(path, "w"))
                 lines.append("VIOLATION property=%s replay=%s rule=%s %s" % (prop, path, rule, str(b.get("msg", b))[:160]))
             nviol += len(bads)
 
@@ -81,7 +81,8 @@ def run(prop, tier, seed):
                 trans += tr
             bad, done, aborted = go_rows(binary, "TestFillRows", f, wd, "fill", core.NCPU)
             evals += done * 4
-            report("fill", bad, "filler-disagrees-with-Fill.tla")
+            report("fill", bad, "filler-disagrees-with-Fill.tla",
+                   {"module": "Fill.tla", "cfg": "FillQuick.cfg" if tier == "quick" else "FillRows.cfg", "test": "TestFillRows"})
             if aborted:
                 lines.append("note: a worker stopped early after repeated non-terminating Fill calls")
             samples.append({"fill_rows": done, "variants": 4, "example": open(f).read().split('<<"ROW", ')[1][:300]})
@@ -90,7 +91,7 @@ def run(prop, tier, seed):
             trans += tr
             bad, done2, _ = go_rows(binary, "TestRowLayout", r, wd, "row", core.NCPU)
             evals += done2
-            report("row", bad, "row-disagrees-with-Row.tla")
+            report("row", bad, "row-disagrees-with-Row.tla", {"module": "Row.tla", "cfg": "Row.cfg", "test": "TestRowLayout"})
             samples.append({"row_layouts": done2})
             rule = ("every terminated call of Fill.tla (parameters: widths 0..W, component widths {0,1,2}, totals/currents/refills, flags) "
                     "replayed on the real bar filler with 2 palettes x 2 directions and on the spinner filler; every layout of Row.tla "
@@ -102,7 +103,8 @@ def run(prop, tier, seed):
             trans += tr
             bad, done, _ = go_rows(binary, "TestShareGrid", a, wd, "grid", 1)
             evals += done
-            report("grid", [dict(b, msg="filled %s cells, FillArith.tla says %s" % (b.get("got"), b.get("want"))) for b in bad], "share-disagrees-with-FillArith.tla")
+            report("grid", [dict(b, msg="filled %s cells, FillArith.tla says %s" % (b.get("got"), b.get("want"))) for b in bad], "share-disagrees-with-FillArith.tla",
+                   {"module": "FillArith.tla", "cfg": "FillArithQuick.cfg" if tier == "quick" else "FillArith.cfg", "test": "TestShareGrid"})
             n = 200000 if tier == "quick" else 4000000
             outs = []
 
@@ -118,7 +120,8 @@ def run(prop, tier, seed):
                 for ls in ex.map(rnd, range(core.NCPU)):
                     evals += ls[-1]["done"]
                     if ls[-1]["bad"]:
-                        report("share", [dict(b, row=i) for i, b in enumerate(ls[:-1])], "share-not-proportional-or-not-monotone")
+                        report("share", [dict(b, row=i) for i, b in enumerate(ls[:-1])], "share-not-proportional-or-not-monotone",
+                               {"test": "TestShare", "seed": seed * 1000, "n": n // core.NCPU, "workers": core.NCPU})
                         nviol += max(0, ls[-1]["bad"] - len(ls[:-1]))
             # the refill / filled-part clauses live in Fill.tla (Proportional, RefillWithin, ZeroAndFull) and its replay
             f, st, tr = tlc_to_file("Fill.tla", "FillQuick.cfg", wd, "fill.out", workers=8)
@@ -126,7 +129,7 @@ def run(prop, tier, seed):
             trans += tr
             bad, done3, _ = go_rows(binary, "TestFillRows", f, wd, "fill", core.NCPU)
             evals += done3
-            report("fill", bad, "filler-disagrees-with-Fill.tla")
+            report("fill", bad, "filler-disagrees-with-Fill.tla", {"module": "Fill.tla", "cfg": "FillQuick.cfg", "test": "TestFillRows"})
             samples.append({"grid_points": done, "random_int64_triples": n, "fill_rows": done3})
             rule = ("FillArith.tla grid (totals 1..T, currents 0..T+1, widths 0..W) replayed at scales 1, 2^20, 2^40 and MaxInt64/(T+1); seeded "
                     "random and boundary int64 (total, current1<=current2, width) judged by exact integer arithmetic; Fill.tla rows for the refill clauses")
@@ -156,7 +159,8 @@ def table(prop, tier, seed, module, cfg_q, cfg_t, gotest, marker, rule_text, vio
         os.makedirs(os.path.join(core.ROOT, "replays"), exist_ok=True)
         for b in bad[:8]:
             path = os.path.join(core.ROOT, "replays", "%s-case-%d.json" % (prop, b.get("row", 0)))
-            json.dump(dict(b, property=prop), open(path, "w"))
+            json.dump(dict(b, property=prop, kind="case", rule=violation_rule,
+                           how={"module": module, "cfg": cfg_q if tier == "quick" else cfg_t, "test": gotest}), open(path, "w"))
             lines.append("VIOLATION property=%s replay=%s rule=%s %s" % (prop, path, violation_rule, str(b.get("msg"))[:180]))
         ex = open(f).read().split('<<"%s", ' % marker)
         cov = {"states": st, "transitions": tr, "traces_validated_against_impl": done * variants,
@@ -164,5 +168,34 @@ def table(prop, tier, seed, module, cfg_q, cfg_t, gotest, marker, rule_text, vio
                "rule": rule_text, "exhaustive": True, "checker_cmd": "tlc %s (%s) ; harness.test %s" % (module, cfg_q if tier == "quick" else cfg_t, gotest)}
         lines.append("%s %s table: %d cases, %d violations, %.1fs" % (prop, tier, done, nviol, time.time() - t0))
         return {"cov": cov, "lines": lines, "nviol": nviol, "assume": assume}
+    finally:
+        shutil.rmtree(wd, ignore_errors=True)
+
+
+def replay_row(d):
+    """Re-checks one recorded table row: TLC recomputes the table, the driver executes that row alone."""
+    how = d.get("how") or {}
+    wd = core.workdir("replay")
+    try:
+        binary = core.build_harness(wd)
+        if how.get("test") == "TestShare":
+            bad = []
+            for i in range(how.get("workers", 1)):
+                outp = os.path.join(wd, "share-%d.out" % i)
+                subprocess.run([binary, "-test.run", "^TestShare$", "-test.timeout", "0"], capture_output=True, text=True, timeout=3000,
+                               env=dict(os.environ, VH_OUT=outp, VH_SEED=str(how["seed"] + i), VH_N=str(how["n"])))
+                ls = [json.loads(l) for l in open(outp)]
+                bad += ls[:-1]
+        else:
+            f, _, _ = tlc_to_file(how["module"], how["cfg"], wd, "table.out", workers=8)
+            row = d.get("row", 0)
+            if row < 0:   # a crash of the driver process: run the worker's whole share again
+                bad, _, _ = go_rows(binary, how["test"], f, wd, "rp", core.NCPU)
+            else:
+                bad, _, _ = go_rows(binary, how["test"], f, wd, "rp", 1, extra_env={"VH_FROM": str(row), "VH_STEP": "1000000000"})
+        for b in bad[:10]:
+            print("BROKEN", json.dumps(b)[:400])
+        print("replayed %s row %s: %d disagreements (recorded: %s)" % (how.get("test"), d.get("row"), len(bad), d.get("rule")))
+        return 1 if bad else 0
     finally:
         shutil.rmtree(wd, ignore_errors=True)
